@@ -149,6 +149,32 @@ def fastdiag_solve(ctx, dim, shape, dx, vector):
         close(ctx, f"zero_mean:comp{ci}", _sum(uc) / n, 0.0, tol)
 
 
+@scenario
+def solver_objects_do_not_share_state(ctx, dim, shape, dx1, dx2):
+    """construction history: a solver built after another one of the same shape but a different spacing solves ITS problem"""
+    _, spne, _, _ = sopht_modules()
+    shape = tuple(shape)
+    rt_name = "float32" if ctx.real_t == np.float32 else "float64"
+    solvers = []
+    with warnings.catch_warnings():
+        warnings.simplefilter("ignore")
+        for dx in (dx1, dx2):
+            if dim == 2:
+                solvers.append(spne.FastDiagPoissonSolver2D(grid_size_y=shape[0], grid_size_x=shape[1], dx=ctx.real_t(dx), real_t=ctx.real_t))
+            else:
+                solvers.append(spne.FastDiagPoissonSolver3D(grid_size_z=shape[0], grid_size_y=shape[1], grid_size_x=shape[2], dx=ctx.real_t(dx), real_t=ctx.real_t))
+    second = solvers[1]
+    f = ctx.array("rhs", shape)
+    u = ctx.array("solution_prior", shape)
+    bound_vars(ctx, f)
+    if ctx.sym:
+        _symbolise_solver(ctx, second)
+    second.solve(solution_field=u, rhs_field=f)
+    n = int(np.prod(shape))
+    res = neumann_neg_laplacian(u, float(ctx.real_t(dx2)))
+    close_array(ctx, "second_solver_neumann_residual", res, f - _sum(f) / n, TOL[rt_name])
+
+
 def main():
     chk = Check("C11", "fast-diagonalisation solver: residual of the discrete Neumann problem for all right-hand sides in a box (symbolic execution of solve(), QF_LRA tolerance queries)",
                 functions=["FastDiagPoissonSolver2D.solve", "FastDiagPoissonSolver3D.solve", "FastDiagPoissonSolver3D.vector_field_solve"],
@@ -172,6 +198,9 @@ def main():
             for sh in s3:
                 chk.add(fastdiag_solve, real_t=rt, dim=3, shape=sh, dx=dx, vector=False)
             chk.add(fastdiag_solve, real_t=rt, dim=3, shape=s3[1], dx=dx, vector=True)
+        chk.add(solver_objects_do_not_share_state, real_t=rt, dim=2, shape=(3, 4), dx1=0.2, dx2=0.37)
+        chk.add(solver_objects_do_not_share_state, real_t=rt, dim=3, shape=(2, 3, 4), dx1=0.2, dx2=0.37)
+        chk.add(solver_objects_do_not_share_state, real_t=rt, dim=3, shape=(3, 3, 3), dx1=0.5, dx2=0.125)
     chk.bounds = [f"2D shapes {s2[:8]}... ({len(s2)}), 3D shapes ({len(s3)}), dx in {dxs}, precisions {rts}", "rhs cells symbolic in [-1,1]; prior solution and spectral buffer contents arbitrary symbolic",
                   f"tolerances (absolute, rhs in [-1,1]): {TOL}"]
     chk.outside = ["sizes above the enumerated ones (the property's 'sizes 2..64')", "rounding inside solve() (exact product of the concrete float eigen-tables)", "LAPACK (its results are data)"]
